@@ -5,6 +5,7 @@ import (
 	"go/types"
 	"os"
 	"path/filepath"
+	"regexp"
 	"sort"
 	"strings"
 
@@ -28,6 +29,7 @@ type Global struct {
 	modBusy   map[*ssa.Function]bool
 	busyHits  int
 	fnKeyIDs  map[string]int
+	idKeys    []string
 	heapKinds map[string]string
 	repo      string
 	fnIDs     map[*ssa.Function]int
@@ -364,9 +366,75 @@ func (g *Global) devirt(tr *Tr, iv If, m *types.Func) *ssa.Function {
 	return g.prog.MethodValue(sel)
 }
 
+// dynCall: a call through a function value whose identity is only known symbolically (r.step). The candidates are the
+// functions under contract with an identical signature whose identity is named somewhere in the contracts (funcid);
+// the call site proves that the value is one of them (typestate) and continues with the merge of the candidates' contracts.
 func (g *Global) dynCall(tr *Tr, fr *Frame, c *ssa.CallCommon, fv Value, args []Value, resT types.Type, st *State) Value {
-	panic(subsetErr("dynamic call through function value " + c.Value.Name()))
+	sc, ok := fv.(Sc)
+	if !ok {
+		panic(subsetErr("dynamic call through function value " + c.Value.Name()))
+	}
+	sig := c.Signature()
+	type cand struct {
+		key string
+		f   *ssa.Function
+		id  string
+	}
+	var cands []cand
+	for _, key := range g.funcIDKeys() {
+		f := g.funcs[key]
+		if f == nil || f.Signature.Recv() != nil || !types.Identical(f.Signature, sig) {
+			continue
+		}
+		if fc := g.contracts.Funcs[key]; fc == nil {
+			continue
+		}
+		cands = append(cands, cand{key, f, g.funcIDByKey(key, f)})
+	}
+	if len(cands) == 0 {
+		panic(subsetErr("dynamic call through function value " + c.Value.Name() + ": no candidate function under contract"))
+	}
+	var alts []string
+	for _, cd := range cands {
+		alts = append(alts, sEq(sc.T, cd.id))
+	}
+	tr.oblige(st, "dyncall", "", nil, sOr(alts...), "function value "+c.Value.Name()+" is one of the functions the typestate allows")
+	var sts []*State
+	for _, cd := range cands {
+		sti := st.clone()
+		sti.guard = tr.nameBool("g", sAnd(st.guard, sEq(sc.T, cd.id)))
+		v := tr.callStatic(fr, cd.f, nil, args, resT, sti)
+		if v != nil {
+			sti.vars["$dynres"] = v
+		}
+		sts = append(sts, sti)
+	}
+	out := tr.mergeStates(sts)
+	res := out.vars["$dynres"]
+	delete(out.vars, "$dynres")
+	st.vars, st.top, st.guard = out.vars, out.top, out.guard
+	return res
 }
+
+// funcIDKeys: the functions named by funcid(...) in the contracts, in a fixed order.
+func (g *Global) funcIDKeys() []string {
+	if g.idKeys == nil {
+		seen := map[string]bool{}
+		for _, file := range g.contracts.Files {
+			src, _ := os.ReadFile(file)
+			for _, m := range funcidRe.FindAllStringSubmatch(string(src), -1) {
+				if !seen[m[1]] {
+					seen[m[1]] = true
+					g.idKeys = append(g.idKeys, m[1])
+				}
+			}
+		}
+		sort.Strings(g.idKeys)
+	}
+	return g.idKeys
+}
+
+var funcidRe = regexp.MustCompile(`funcid\("([^"]+)"\)`)
 
 // sortedFuncKeys returns all contract keys in order.
 func (g *Global) sortedContractKeys() []string {
